@@ -303,7 +303,8 @@ def run(ctx):
         # a transaction has several inputs: the batch that cancels the entry releases all it has locked, not only the
         # one record the caller is repairing (the others would stay Locked under a cancelled entry until their turn)
         if fid.startswith(c.LW + "internal::scan::"):
-            rel = [b_ for b_, t_ in cfg.find_calls(f, c.WOB + "save") if vf.has_call(vf.origins(f, t_["a"][1]), c.WB + "iter")]
+            from .shared import released_as_unspent
+            rel = [b_ for b_, t_ in cfg.find_calls(f, c.WOB + "save") if vf.has_call(vf.origins(f, t_["a"][1]), c.WB + "iter") and released_as_unspent(f, b_, t_)]
             h_rel = bool(rel) and bool(cfg.find_calls(f, c.WB + "iter"))
             run.instance(R8, {"fn": pp.short(fid), "obligation": "the cancelling batch releases every record the entry still has locked (read from the wallet, saved in the same batch)"}, held=h_rel)
             if not h_rel:
